@@ -45,6 +45,9 @@ enum Ev {
     A(u64, u64),
     C(u64),
     W(u64, bool),
+    /// the stream poll this event rides on (and every later one of the same poll_next call) yields: it wakes the waker
+    /// it is polled with and returns Pending - what tokio's cooperative budgeting does once a task's budget is used up
+    Y,
 }
 
 struct Shared {
@@ -52,6 +55,7 @@ struct Shared {
     window: Mutex<Option<(usize, Vec<Ev>)>>,
     polls: AtomicUsize,
     handle: Mutex<Option<FairQueueHandle<SStream, u64>>>,
+    yielding: std::sync::atomic::AtomicBool,
 }
 
 struct SStream {
@@ -76,6 +80,7 @@ fn apply(sh: &Arc<Shared>, e: &Ev) {
         }
         Ev::A(k, x) => src(sh, *k).lock().items.push_back(*x),
         Ev::C(k) => src(sh, *k).lock().closed = true,
+        Ev::Y => sh.yielding.store(true, Ordering::SeqCst),
         Ev::W(k, consume) => {
             let st = src(sh, *k);
             let w = if *consume { st.lock().waker.take() } else { st.lock().waker.clone() };
@@ -102,6 +107,10 @@ impl Stream for SStream {
                 apply(&self.sh, e);
             }
         }
+        if self.sh.yielding.load(Ordering::SeqCst) {
+            cx.waker().wake_by_ref();
+            return Poll::Pending;
+        }
         let mut st = self.st.lock();
         if let Some(x) = st.items.pop_front() {
             Poll::Ready(Some(x))
@@ -115,6 +124,9 @@ impl Stream for SStream {
 }
 
 fn parse_ev(t: &str) -> Ev {
+    if t == "Y" {
+        return Ev::Y;
+    }
     let (c, rest) = t.split_at(1);
     match c {
         "I" => Ev::I(rest.parse().unwrap()),
@@ -140,6 +152,7 @@ pub fn run(args: &[&str]) -> String {
         window: Mutex::new(None),
         polls: AtomicUsize::new(0),
         handle: Mutex::new(None),
+        yielding: std::sync::atomic::AtomicBool::new(false),
     });
     let mut probe: FairQueueProbe<SStream, u64> = FairQueueProbe::new(block);
     *sh.handle.lock() = Some(probe.handle());
@@ -159,6 +172,7 @@ pub fn run(args: &[&str]) -> String {
             Poll::Ready(None) => "None".to_string(),
             Poll::Ready(Some((k, x))) => format!("R{}.{}", k, x),
         };
+
         // window events that found no stream poll to ride on happen right after the call returns
         let rest = sh.window.lock().take();
         if let Some((_, evs)) = rest {
@@ -166,6 +180,9 @@ pub fn run(args: &[&str]) -> String {
                 apply(&sh, e);
             }
         }
+        // the budget is fresh again once the call has returned to the executor (a yield marker that found no
+        // stream poll to ride on has no effect)
+        sh.yielding.store(false, Ordering::SeqCst);
         r
     };
     let mut last_w0 = 0usize;
